@@ -744,7 +744,7 @@ Example rri_interleave_traces :
   rri p_interleave = p_interleave.
 Proof. repeat split; reflexivity. Qed.
 
-(* 116947d (F02-65): list(xs) is a snapshot; the body mutates xs *)
+(* 608b244 (F02-65): list(xs) is a snapshot; the body mutates xs *)
 Definition p_snapshot : prog :=
   [SS (SAssign 9%nat (EDisp [1; 2; 3])); SFor 8%nat (ECall FList (EAtom (AVar 9%nat))) [SRemove 9%nat (AVar 8%nat)];
    SS (SPrint (EAtom (AVar 9%nat)))].
@@ -775,7 +775,7 @@ Example oct_consumed_traces :
   oct p_consumed = p_consumed.
 Proof. repeat split; reflexivity. Qed.
 
-(* 1454583: a generator expression stops at the first hit, the list comprehension runs to the end *)
+(* cf0e3b9: a generator expression stops at the first hit, the list comprehension runs to the end *)
 Definition p_lazy : prog := [SS (SPrint (EIn (AInt 1) (EComp (EGen 0%nat))))].
 Theorem oct_before_1454583_refuted :
   exists W fuel p, obs (run W fuel (oct_before_2835a2e p)) <> obs (run W fuel p).
